@@ -681,6 +681,15 @@ func encodeText(t *Ty, v string) ([]byte, bool) {
 }
 
 func generate(rn *runner, r *hx.Rng, thorough bool) {
+	// (h) process-local history, deterministic small family first: fresh types, every order
+	for _, es := range []string{"u16", "bytes", "a2", "big", "S,u64"} {
+		elem, _ := tyOf(es)
+		for _, o := range histOrders {
+			for _, n := range []int{0, 1, 3} {
+				rn.do(histOp(r, o, elem, n))
+			}
+		}
+	}
 	// (c) exhaustive small scope
 	emitAll := func(b []byte) {
 		h := hx.Hex(b)
@@ -821,6 +830,9 @@ func generate(rn *runner, r *hx.Rng, thorough bool) {
 	rn.do("api er:a:R3,u64,bytes,S,str:L3,N73588229205,Baaaaaaaaaaaaaaaaaaaaaaaaaaaaaaaaaaaaaaaaaaaaaaaaaaaaaaaaaaaaaaaaaaaaaaaaaaaaaaaaaaaaaaaaaaaaaaaaaaaaaaaaaaaaaaaaaaaaaaaaaaaaaaaaaaaaaaaaaaaaaaaaaaaa,L2,B616c706861,B62657461;eb:R3,u64,bytes,S,str:L3,N7,B5555555555555555555555555555555555555555555555555555555555555555555555555555555555555555555555555555555555555555555555555555555555555555555555555555555555555555555555555555555555,L1,B78;dr:a;chk")
 	for i := 0; i < nSess; i++ {
 		rn.do(genApiSession(r))
+		if i%5 == 0 {
+			rn.do(histOp(r, histOrders[r.Intn(len(histOrders))], genTy(r, 1), r.Pick(0, 1, 2, 4)))
+		}
 	}
 	// (d) typed
 	var tys []*Ty
